@@ -58,6 +58,13 @@ add("C09", "Lean 4 proof for every abstract tree (mutual induction): no panic un
     "C09_total_partial (all trees satisfying allShapeOk, all byte strings), C09_total_full_fails (the unconditional statement is false for the model: the hypothesis is necessary), C09_cost (passOps <= (K*size)^2), C09_pass_placement (decide on regenerated facts). allShapeOk is re-validated on every real tree; the hook counter of the real run equals the model's passOps on the same tree. Oracle: token mutations, random bytes, truncations, deep nesting, invalid UTF-8 through the real visitor; scaling family at n/3n/9n (op counts and growth ratio); thorough: go native fuzzing.",
     COMMON_NOTE + " Wall-clock time, Go stack limits, tree-sitter's termination and memory are not carried by the model.", "DESIGN.md §6 C09")
 
+add("C05", "Lean 4: regenerated attribute wiring decided in Lean, list-shape theorems for any length (named children of delimited lists), pure-function facts for visibility and Javadoc parsing; exact correspondence of the Lean attribute model with the real Node fields on real trees; generator ground-truth oracle",
+    "C05_wiring (which extracted value each attribute field of the class/method/variable literals is set from, re-extracted from the Go source every run), C05_list_named / C05_throws (for lists of any length exactly the written items, in order), C05_visibility_*, C05_javadoc_examples (evaluated in the kernel; labelled as examples). The extraction functions of Cpf.Scan.Attrs (post-fix code) are compared attribute by attribute with the real scanner on every generated program and on the android sample. The oracle compares what the generator *wrote* (every visibility, primitive/void/array/class types, 0..n parameters/throws/annotations, superclass, interfaces, Javadoc tag mixes, fields and locals with/without initialisers) with the real attributes. A general theorem 'extract (shape d) = written d' over a Lean-owned Java AST is not done: that the tree of a construct has the assumed shape is tree-sitter's grammar, validated by the exact correspondence.",
+    COMMON_NOTE, "DESIGN.md §6 C05")
+add("C06", "Lean 4: operator->kind table and attribute wiring decided on regenerated tables; call-argument theorem for argument lists of any length; exact correspondence of the attribute model; generator ground-truth oracle over all 19 operators and every statement form",
+    "C06_operator_kinds (each of the 19 operators yields exactly its documented specific kind), C06_generic_binary, C06_wiring(_operators), named_delimited / C06_call_args (any number of arguments: exactly the argument texts in order, string literals unquoted), C06_block_includes_braces (the recorded finding as a model fact). Correspondence and oracle as for C05, over calls (0..n arguments of every literal kind, this./identifier./field receivers), object creations (simple and scoped), nested and parenthesised binary operands, if/else, while, do-while, for with empty clauses, labelled break/continue, yield, assert with/without message, return with/without result, blocks.",
+    COMMON_NOTE, "DESIGN.md §6 C06")
+
 def main():
     hooks_commits = subprocess.run(["git", "-C", "/repo", "log", "--format=%H %s", "--grep=^verif:"], capture_output=True, text=True).stdout.strip().splitlines()
     m = dict(
